@@ -62,11 +62,13 @@ func (c Command) ExecuteIQ(ctx context.Context, iq stanza.IQ, payload xml.TokenR
 	if err != nil {
 		return resp, nil, err
 	}
+	// The error returns below set respPayload to nil, so remember the response
+	// to be able to close it (stream processing waits for that).
+	response := respPayload
 	defer func() {
-		respPayload := respPayload
-		if err != nil && respPayload != nil {
+		if err != nil {
 			/* #nosec */
-			respPayload.Close()
+			response.Close()
 		}
 	}()
 	var t xml.Token
@@ -74,7 +76,11 @@ func (c Command) ExecuteIQ(ctx context.Context, iq stanza.IQ, payload xml.TokenR
 	if err != nil {
 		return resp, nil, err
 	}
-	start := t.(xml.StartElement)
+	start, ok := t.(xml.StartElement)
+	if !ok {
+		err = errors.New("commands: expected IQ start token")
+		return resp, nil, err
+	}
 	respIQ, err := stanza.UnmarshalIQError(respPayload, start)
 	if err != nil {
 		return resp, nil, err
@@ -84,7 +90,11 @@ func (c Command) ExecuteIQ(ctx context.Context, iq stanza.IQ, payload xml.TokenR
 	if err != nil {
 		return resp, nil, err
 	}
-	start = t.(xml.StartElement)
+	start, ok = t.(xml.StartElement)
+	if !ok {
+		err = errors.New("commands: unexpected response to command")
+		return resp, nil, err
+	}
 	resp, err = respFromStart(start, respIQ)
 	if err != nil {
 		return resp, nil, err
